@@ -720,6 +720,131 @@ impl Scenario for ConfirmedChangesSurviveRestart {
     }
 }
 
+/// C11: the optional cache (CASE resumption records) is damaged while the device is down. The
+/// device starts all the same, with everything committed, and serves its administrator again.
+pub struct DamagedResumptionCache;
+
+impl Scenario for DamagedResumptionCache {
+    fn property(&self) -> &'static str {
+        "C11"
+    }
+    fn name(&self) -> &'static str {
+        "damaged-resumption-cache"
+    }
+
+    fn run(&self, seed: u64) -> Outcome {
+        use crate::worlds::full_drive::{set_blob_damage, BlobDamage};
+        let damage = match tape::choose(7) {
+            0 => BlobDamage::FlipBit(tape::choose(4) as usize, tape::choose(8) as u8),
+            1 => BlobDamage::Empty,
+            2 => BlobDamage::Truncate(tape::choose(200) as usize),
+            3 => BlobDamage::FlipBit(tape::choose(400) as usize, tape::choose(8) as u8),
+            4 => BlobDamage::SetByte(tape::choose(400) as usize, tape::choose(256) as u8),
+            5 => BlobDamage::Garbage(tape::choose(300) as usize, tape::choose(1 << 20) as u64),
+            _ => BlobDamage::Extend(1 + tape::choose(40) as usize, tape::choose(1 << 20) as u64),
+        };
+        let two_fabrics = tape::choose(2) == 1;
+        // The cache is flushed every 2 s; the crash comes after that
+        let crash_at = (14_000 + tape::choose(20) as u64 * 250) * 1000;
+        let a_script = vec![
+            CtlStep::Commission { dev: 0 },
+            CtlStep::ReadOnOff { dev: 0 },
+            CtlStep::OpenWindow { dev: 0, secs: 900 },
+            CtlStep::SleepUntil { ms: 30_000 },
+            CtlStep::ReadOnOff { dev: 0 },
+            CtlStep::ReadOnOff { dev: 0 },
+            CtlStep::Toggle { dev: 0 },
+        ];
+        let b_script = if two_fabrics {
+            vec![
+                CtlStep::Sleep { ms: 4_000 },
+                CtlStep::Commission { dev: 0 },
+                CtlStep::ReadOnOff { dev: 0 },
+                CtlStep::SleepUntil { ms: 30_000 },
+                CtlStep::ReadOnOff { dev: 0 },
+                CtlStep::ReadOnOff { dev: 0 },
+            ]
+        } else {
+            vec![]
+        };
+        let cfg = FullCfg {
+            n_devices: 1,
+            controllers: vec![
+                CtlSpec { fabric_id: 1, node_id: CTL_NODE_ID, script: a_script, continue_on_error: true },
+                CtlSpec { fabric_id: 2, node_id: CTL_NODE_ID, script: b_script, continue_on_error: true },
+            ],
+            handlers: 3,
+            net: UniformNet { latency_us: 1000, ..Default::default() },
+            sched: SchedCfg { max_polls: 3_000_000, max_time: 1_000 * SEC, ..Default::default() },
+            limit_us: 600 * SEC,
+            kv_faults: vec![],
+            crashes: vec![crash_at],
+            restart_after_us: 300 * MS,
+            cancels: vec![],
+            calm_at_us: None,
+        };
+        set_blob_damage(Some((rs_matter::persist::CASE_RESUMPTION_KEY, damage.clone())));
+        let run = drive_full(seed, cfg);
+        let mut out = Outcome::default();
+        common_counters(&run, &mut out);
+        let a = results(&run, 1);
+        let b = results(&run, 2);
+        let damaged = run.fired.get("blob_damaged_while_down").copied().unwrap_or(0) > 0;
+        let commissioned = a.iter().any(|(n, c, _)| *n == "commission" && *c == 0xffff)
+            && (!two_fabrics || b.iter().any(|(n, c, _)| *n == "commission" && *c == 0xffff));
+        let startup_errs: Vec<u16> = run
+            .log
+            .iter()
+            .filter_map(|e| match e.kind {
+                FullKind::DeviceStartupErr(c) => Some(c),
+                _ => None,
+            })
+            .collect();
+        let describe = || {
+            format!(
+                "damage {damage:?}; start-up errors {startup_errs:x?}; A {:?}; B {:?}; fabrics after the restart {:?}",
+                a.iter().filter(|(n, _, _)| *n != "sleep").map(|(n, c, t)| format!("{n}:{c:x}@{}", t / 1000)).collect::<Vec<_>>(),
+                b.iter().filter(|(n, _, _)| *n != "sleep").map(|(n, c, t)| format!("{n}:{c:x}@{}", t / 1000)).collect::<Vec<_>>(),
+                run.dev_states[0].as_ref().map(|d| d.fabrics.iter().map(|f| f.fab_idx).collect::<Vec<_>>())
+            )
+        };
+        if run.all_done && commissioned && damaged && run.device_incarnations == 2 {
+            out.count("c11_restarts_with_damaged_cache", 1);
+            if !startup_errs.is_empty() {
+                out.violate("C11-damaged-cache-prevents-start-up", describe());
+            }
+            let want = if two_fabrics { vec![1u8, 2] } else { vec![1u8] };
+            let have = run.dev_states[0].as_ref().map(|d| d.fabrics.iter().map(|f| f.fab_idx).collect::<Vec<_>>()).unwrap_or_default();
+            if have != want {
+                out.violate("C11-fabric-lost-over-restart", describe());
+            }
+            // Not part of the statement, only counted: a record which still parses but is wrong
+            // (e.g. a bit flipped in the stored peer node id) can leave the administrator with
+            // resumptions that succeed and sessions that do not work
+            let a_served = a.iter().rev().take(3).any(|(n, c, _)| *n == "read_onoff" && *c == 0xffff);
+            let b_served = !two_fabrics || b.iter().rev().take(2).any(|(n, c, _)| *n == "read_onoff" && *c == 0xffff);
+            if a_served && b_served {
+                out.count("probe_administrators_served_after_damage", 1);
+            } else {
+                out.count("observed_administrator_not_served_after_damage", 1);
+            }
+        } else {
+            out.count("runs_incomplete", 1);
+        }
+        out.nontrivial = damaged;
+        out.state_sigs.push(match damage {
+            BlobDamage::Empty => 1,
+            BlobDamage::Truncate(n) => 0x100 + n as u64,
+            BlobDamage::FlipBit(i, b) => 0x10000 + (i as u64) * 8 + b as u64,
+            BlobDamage::SetByte(i, _) => 0x20000 + i as u64,
+            BlobDamage::Garbage(n, _) => 0x30000 + n as u64,
+            BlobDamage::Extend(n, _) => 0x40000 + n as u64,
+        });
+        out.sample = Some(json!({"damage": format!("{damage:?}"), "two_fabrics": two_fabrics, "crash_at_us": crash_at, "start_up_errors": startup_errs}));
+        out
+    }
+}
+
 pub fn defs() -> Vec<PropertyDef> {
     let mk = |which: Which, id: &'static str| PropertyDef {
         id,
@@ -759,6 +884,7 @@ pub fn defs() -> Vec<PropertyDef> {
     let mut c11 = mk(Which::C11, "C11");
     c11.families.push(Family { scenario: Box::new(ConfirmedChangesSurviveRestart { faults: false }), weight: 3, fault_free: false });
     c11.families.push(Family { scenario: Box::new(ConfirmedChangesSurviveRestart { faults: true }), weight: 2, fault_free: false });
+    c11.families.push(Family { scenario: Box::new(DamagedResumptionCache), weight: 2, fault_free: false });
     c11.budget_s = (90, 900);
     vec![c08, c11]
 }
